@@ -12,6 +12,8 @@ import (
 	"path/filepath"
 	"strings"
 
+	sdk "github.com/cosmos/cosmos-sdk/types"
+
 	"vharness/internal/gen"
 	"vharness/internal/monitor"
 	"vharness/internal/rng"
@@ -102,8 +104,10 @@ func chainCmd(args []string, engine string) {
 	dir := fs.String("dir", "", "output directory")
 	props := fs.String("props", "", "comma separated property ids whose monitors run (empty: all)")
 	twin := fs.Bool("twin", false, "run every history twice on fresh applications and compare (C07)")
+	cr := fs.Int("cr", 1, "sdk.ConstantReward for this run (the application sets 1; 0 exercises the modules with the validators' real powers)")
 	isolate := fs.Bool("isolate", false, "re-run every history once per tenant without the other tenants' messages and compare the tenant's view (C13)")
 	fs.Parse(args)
+	sdk.ConstantReward = *cr == 1
 	p, ok := gen.Profiles[*profile]
 	if !ok && engine != "ante" {
 		fmt.Fprintln(os.Stderr, "unknown profile")
